@@ -146,11 +146,10 @@ impl RegexMatcher {
 /// Inside a bracket expression "[:" opens a character class: it has to be
 /// closed by ":]" and to hold one of the twelve POSIX names (the engine knows
 /// more names, and reads an unclosed "[:" as two characters).  GNU's emacs
-/// syntax has no classes.
+/// syntax has no classes.  "[." and "[=" have to be closed by ".]" and "=]" in
+/// every syntax (the engine reads an unclosed one as two characters).
 fn check_classes(pattern: &str, regex_type: RegexType) -> Result<(), Box<dyn Error>> {
-    if matches!(regex_type, RegexType::Emacs) {
-        return Ok(());
-    }
+    let classes = !matches!(regex_type, RegexType::Emacs);
     let mut rest = pattern;
     while let Some(ch) = rest.chars().next() {
         rest = &rest[ch.len_utf8()..];
@@ -175,7 +174,7 @@ fn check_classes(pattern: &str, regex_type: RegexType) -> Result<(), Box<dyn Err
                     }
                     let inner = &members[i + 1..];
                     members = match inner.chars().next() {
-                        Some(':') => {
+                        Some(':') if classes => {
                             let Some(end) = inner[1..].find(":]") else {
                                 return Err(From::from(format!(
                                     "Unmatched [: in regular expression {pattern:?}"
@@ -195,7 +194,11 @@ fn check_classes(pattern: &str, regex_type: RegexType) -> Result<(), Box<dyn Err
                         }
                         Some(delim @ ('.' | '=')) => match inner[1..].find(&format!("{delim}]")) {
                             Some(end) => &inner[1 + end + 2..],
-                            None => return Ok(()),
+                            None => {
+                                return Err(From::from(format!(
+                                    "Unmatched [{delim} in regular expression {pattern:?}"
+                                )))
+                            }
                         },
                         _ => inner,
                     };
